@@ -52,7 +52,7 @@ func enumCloseSteps(t *testing.T, wa WorkerArgs, spec RunSpec, emit func(*RunRes
 	if twin.Infra != "" || twin.Inconcl {
 		return
 	}
-	kinds := []string{"close-client-conn", "cancel-serve", "close-client-conn-concurrent", "close-server-tr", "close-client-tr", "listener-error"}
+	kinds := []string{"close-client-conn", "cancel-serve", "close-client-conn-concurrent", "close-server-tr", "close-client-tr", "listener-error", "bad-metadata"}
 	stride := 3
 	if spec.Tier == "thorough" {
 		stride = 1
